@@ -247,6 +247,21 @@ def _as_surface(desc, mesh, symmetry, nm):
     return s
 
 
+def _pm_loads(nodes, locs, masses, thrusts, load_factor):
+    """nodal loads (n, 6) of point masses and engine thrusts by the documented rule: every node receives the share
+    w_i / sum(w), w_i = 1 / (dy_i^10 + 1e-10), of each weight (downwards) and thrust (forwards), plus its moment about the node"""
+    g = 9.80665
+    L = np.zeros((len(nodes), 6))
+    for loc, m, t in zip(locs, masses, thrusts):
+        r = np.asarray(loc, float)[None, :] - nodes
+        w = 1.0 / (r[:, 1] ** 10 + 1e-10)
+        w = w / np.sum(w)
+        F = np.outer(w, [0.0, 0.0, -1.0]) * g * load_factor * m + np.outer(w, [-1.0, 0.0, 0.0]) * t
+        L[:, :3] += F
+        L[:, 3:] += np.cross(r, F)
+    return L
+
+
 def as_verdict(desc):
     out = Outcome()
     half = build_mesh(desc["mesh"])
@@ -287,26 +302,37 @@ def as_verdict(desc):
         for x, y, z in locs:
             w = 1.0 / ((y - yf) ** 10 + 1e-10)
             eps = max(eps, float(np.sum(w[ny:]) / np.sum(w)))
-        # the leaked share acts on the displacement the point-mass/thrust loads cause ALONE; when lift and weight nearly
-        # cancel, that part dominates the net displacement, so the relative effect is amplified by d_mass / d_net
+        # The by-construction difference is predicted, not guessed: the nodal loads of the documented rule are recomputed
+        # here for the half model (own masses, own nodes) and for the full model (both masses, all nodes); their difference
+        # on the nodes of the modelled half is applied ALONE to the half structure, and the displacement / stress it causes,
+        # relative to the converged net displacement / stress, is the predicted relative difference of the two models.
+        # (A share-of-mass measure is not enough: most of an inboard mass goes to the clamped root node and causes nothing,
+        # so the leaked share must be compared with what reaches the free nodes; and when lift and weight nearly cancel
+        # the net response is small.)  Factor 20 covers the aeroelastic feedback.
         from oasv.models import struct_alone_problem
 
+        nodes_h = np.array(ph.get_val("wing.nodes"), float)
+        nodes_f = np.array(pf.get_val("wing.nodes"), float)
+        Lh = _pm_loads(nodes_h, locs, desc["masses"][:nm], desc["thrust"][:nm], desc["load_factor"])
+        Lf = _pm_loads(nodes_f, locs + [[x, -y, z] for x, y, z in locs], desc["masses"][:nm] * 2, desc["thrust"][:nm] * 2,
+                       desc["load_factor"])
         sm = dict(sh)
         sm["struct_weight_relief"] = False
         sm["distributed_fuel_weight"] = False
-        pm_ = struct_alone_problem(sm, loads=np.zeros((ny, 6)), load_factor=desc["load_factor"],
-                                   extra={"point_masses": (np.array(desc["masses"][:nm]), "kg"),
-                                          "point_mass_locations": (np.array(locs), "m"),
-                                          "engine_thrusts": (np.array(desc["thrust"][:nm]), "N")})
+        sm.pop("n_point_masses", None)
+        pm_ = struct_alone_problem(sm, loads=Lf[:ny] - Lh, load_factor=0.0)
         pm_.run_model()
-        d_mass = float(np.max(np.abs(pm_.get_val("disp"))))
-        d_net = max(float(np.max(np.abs(ph.get_val("AS_point_0.coupled.wing.disp")))), 1e-300)
-        amp = max(1.0, d_mass / d_net)
+        d_leak = float(np.max(np.abs(pm_.get_val("disp"))))
+        v_leak = float(np.max(np.abs(pm_.get_val("vonmises"))))
         pm_.cleanup()
-        rt = rt + 20.0 * eps * amp
+        d_net = max(float(np.max(np.abs(ph.get_val("AS_point_0.coupled.wing.disp")))), 1e-300)
+        v_net = max(float(np.max(np.abs(ph.get_val("AS_point_0.wing_perf.vonmises")))), 1e-300)
+        pred = max(d_leak / d_net, v_leak / v_net)
+        rt = rt + 20.0 * pred
         out.info["pointmass_leak"] = eps
-        out.info["pointmass_amplification"] = amp
+        out.info["pointmass_predicted_rel_difference"] = pred
         out.label("leak>1e-6" if eps > 1e-6 else "leak<=1e-6")
+        out.label("predicted_diff>1e-4" if pred > 1e-4 else "predicted_diff<=1e-4")
     A = "AS_point_0."
     Fh = ph.get_val(A + "coupled.aero_states.wing_sec_forces")
     Ff = pf.get_val(A + "coupled.aero_states.wing_sec_forces")
